@@ -37,6 +37,7 @@ struct Dumper {
   PrintingPolicy PP;
   std::map<std::string, int> TypeIdx;
   json::Array Types;
+  json::Array CTypes;
 
   Dumper(ASTContext &C) : Ctx(C), SM(C.getSourceManager()), PP(C.getLangOpts()) {
     PP.SuppressTagKeyword = true;
@@ -68,6 +69,7 @@ struct Dumper {
     if (It != TypeIdx.end()) return It->second;
     int I = (int)Types.size();
     Types.push_back(S);
+    CTypes.push_back(T.isNull() ? "<null>" : T.getCanonicalType().getAsString(PP));   // aliases and typedefs looked through
     TypeIdx[S] = I;
     return I;
   }
@@ -689,6 +691,7 @@ struct Consumer : ASTConsumer {
     Top["unit"] = Ctx.getSourceManager().getFileEntryForID(Ctx.getSourceManager().getMainFileID())->getName().str();
     Top["errors"] = (int64_t)Ctx.getDiagnostics().getClient()->getNumErrors();
     Top["types"] = std::move(D.Types);
+    Top["ctypes"] = std::move(D.CTypes);
     Top["records"] = std::move(V.Records);
     Top["globals"] = std::move(V.Globals);
     Top["enums"] = std::move(V.Enums);
